@@ -113,6 +113,8 @@ func Main(props map[string]Property) {
 		os.Exit(cmdExec(props, os.Args[2:]))
 	case "log":
 		os.Exit(cmdLog(props, os.Args[2:]))
+	case "minimise":
+		os.Exit(cmdMinimise(props, os.Args[2:]))
 	default:
 		fmt.Fprintln(os.Stderr, "unknown subcommand", os.Args[1])
 		os.Exit(ExitInfra)
@@ -273,6 +275,80 @@ func cmdExec(props map[string]Property, args []string) int {
 	return 0
 }
 
+// ---- minimise: confirm and shrink one violation in a process of its own -------------
+
+type minimiseResult struct {
+	Reproduced bool       `json:"reproduced"`
+	Got        string     `json:"got"`
+	Violation  *Violation `json:"violation"`
+}
+
+func cmdMinimise(props map[string]Property, args []string) int {
+	fs := flag.NewFlagSet("minimise", flag.ExitOnError)
+	in := fs.String("in", "", "")
+	out := fs.String("out", "", "")
+	budget := fs.Int("budget", 20, "seconds")
+	fs.Parse(args)
+	v, err := ReadReplay(*in)
+	if err != nil {
+		fmt.Fprintln(os.Stderr, err)
+		return ExitInfra
+	}
+	p := props[v.Property]
+	if p == nil {
+		return ExitInfra
+	}
+	res := minimiseResult{Got: "held"}
+	write := func() {
+		bs, _ := json.Marshal(res)
+		os.WriteFile(*out, bs, 0o644)
+	}
+	w := SafeExec(p, v.Case)
+	if w != nil {
+		res.Got = w.Class
+	}
+	if w == nil || w.Class != v.Class {
+		write()
+		return 0
+	}
+	res.Reproduced = true
+	res.Violation = v
+	write() // confirmed: if minimisation kills this process the confirmed case survives
+	m := Minimise(p, *v, time.Duration(*budget)*time.Second)
+	res.Violation = &m
+	write()
+	return 0
+}
+
+// minimiseInChild confirms and shrinks a violation in a process of its own, so that a case
+// that kills the process (stack exhaustion on a cyclic value, a runtime fatal error) cannot
+// take the orchestrator with it.
+func minimiseInChild(p Property, v Violation, budget time.Duration, scratch string, n int) (res minimiseResult, crashed bool) {
+	inF := filepath.Join(scratch, fmt.Sprintf("min-%d-in.json", n))
+	outF := filepath.Join(scratch, fmt.Sprintf("min-%d-out.json", n))
+	bs, _ := json.Marshal(v)
+	os.WriteFile(inF, bs, 0o644)
+	self, _ := os.Executable()
+	cmd := exec.Command(self, "minimise", "-in", inF, "-out", outF, "-budget", strconv.Itoa(int(budget.Seconds())))
+	cmd.Env = append(os.Environ(), "GOMAXPROCS=2", "VERIF_SCRATCH="+scratch)
+	if h, ok := p.(ChildHook); ok {
+		if b := h.Binary(verifDir()); b != "" {
+			cmd.Path = b
+			cmd.Args[0] = b
+		}
+		for _, e := range h.ChildEnv("minimise") {
+			cmd.Env = append(cmd.Env, strings.ReplaceAll(e, "$SCRATCH", scratch))
+		}
+	}
+	var stderr bytes.Buffer
+	cmd.Stderr, cmd.Stdout = &stderr, &stderr
+	err := cmd.Run()
+	if bs, e := os.ReadFile(outF); e == nil {
+		json.Unmarshal(bs, &res)
+	}
+	return res, err != nil
+}
+
 // ---- replay -------------------------------------------------------------------
 
 func cmdReplay(props map[string]Property, args []string) int {
@@ -400,12 +476,12 @@ func tail(s string, n int) string {
 type childResult struct {
 	lastDone int
 	hungUnit int
-	shard  int
-	exit   int
-	stderr string
-	col    *Collector
-	mark   *Case
-	err    error
+	shard    int
+	exit     int
+	stderr   string
+	col      *Collector
+	mark     *Case
+	err      error
 }
 
 func cmdRun(props map[string]Property, args []string) int {
@@ -553,7 +629,7 @@ func cmdRun(props map[string]Property, args []string) int {
 		budget = time.Duration(*shrinkS) * time.Second
 	}
 	sort.Slice(total.Violations, func(i, j int) bool { return total.Violations[i].Key() < total.Violations[j].Key() })
-	var unknown, knownHits int
+	var unknown, knownHits, nMin int
 	printedKnown := map[string]bool{}
 	perClass := map[string]int{}
 	seenMin := map[string]bool{}
@@ -570,20 +646,16 @@ func cmdRun(props map[string]Property, args []string) int {
 			unknown++
 			continue
 		}
-		// confirm from the Case alone, in a fresh execution: a violation that does not
+		// confirm from the Case alone and minimise, in a process of its own: a violation that does not
 		// reproduce is trouble with the harness (or flaky code), never reported as VIOLATION
-		if v.Class != "harness-panic" {
+		m := v
+		inChild := strings.HasPrefix(v.Class, "fatal") || strings.HasPrefix(v.Class, "race")
+		switch {
+		case v.Class == "harness-panic":
+		case inChild:
 			var w *Violation
-			inChild := strings.HasPrefix(v.Class, "fatal") || strings.HasPrefix(v.Class, "race")
 			for try := 0; try < 3 && (w == nil || w.Class != v.Class); try++ {
-				if inChild {
-					w = execInChild(p, v.Case, *vdir)
-				} else {
-					w = SafeExec(p, v.Case)
-				}
-				if !inChild {
-					break
-				}
+				w = execInChild(p, v.Case, *vdir)
 			}
 			if w == nil || w.Class != v.Class {
 				got := "held"
@@ -593,10 +665,24 @@ func cmdRun(props map[string]Property, args []string) int {
 				infra = append(infra, fmt.Sprintf("a %q violation did not reproduce from its Case (re-execution: %s); case: %s\n%s", v.Class, got, Short2(string(v.Case.Data), 1500), Short2(v.Detail, 1500)))
 				continue
 			}
-		}
-		m := v
-		if !strings.HasPrefix(v.Class, "fatal") && !strings.HasPrefix(v.Class, "race") && v.Class != "harness-panic" {
-			m = Minimise(p, v, budget)
+		default:
+			nMin++
+			res, crashed := minimiseInChild(p, v, budget, scratch, nMin)
+			if !res.Reproduced {
+				if crashed {
+					// the case kills the process: that is a violation in its own right
+					if w := execInChild(p, v.Case, *vdir); w != nil {
+						w.Seed, w.Tier = seed, *tier
+						m = *w
+						break
+					}
+				}
+				infra = append(infra, fmt.Sprintf("a %q violation did not reproduce from its Case (re-execution: %s); case: %s\n%s", v.Class, res.Got, Short2(string(v.Case.Data), 1500), Short2(v.Detail, 1500)))
+				continue
+			}
+			if res.Violation != nil {
+				m = *res.Violation
+			}
 		}
 		if kf := known.Match(&m); kf != nil { // minimisation must not walk into a known finding and hide a new one
 			m = v
